@@ -20,6 +20,11 @@ def _(cls, tokens):
     modifies()
     ensures(result != None and fresh(result))
 
+@contract('RawModel.token_store')
+def _(self):
+    modifies()
+    ensures(result is self.g_ts)
+
 @contract('RawModel.first_token')
 def _(self):
     modifies()
@@ -128,3 +133,10 @@ def _(self, index, value):
     raises('ValueError', 'list[RawModel]')
     ensures(self.g_l == old(ite(index < 0, index + len(self._repeated.items), index)) and self.g_r == self.g_l + 1 and self.g_nv == 1
             and self._repeated.items[self.g_l] is value and Announced(self, old(len(self._repeated.items))))
+
+# ---- refusal of a node that lives in the destination store (fix b2fd10c): before anything is touched
+@contract('_check_not_in_store')
+def _(value, token_store):
+    requires(value != None)
+    modifies()
+    raises('ValueError', when=value.g_ts is token_store)
